@@ -15,9 +15,57 @@ def rb(e, name):
     return e['kind'] == 'call' and (e.get('rpath') or e['path']) == 'dasp_ring_buffer::Bounded::<S>::' + name
 
 
+def rb_path(e):
+    return (e.get('rpath') or e['path']) if e['kind'] == 'call' else ''
+
+
+CX = None
+INV = {}
+
+
+def unre_ref(t):
+    """&*r for a reference value r is r"""
+    while t is not None and t[0] == 'ref' and t[1][0][0] == 'P' and not t[1][1] and t[1][0][1][0] == 'ref':
+        t = t[1][0][1]
+    return t
+
+
 def refill_ok(p, si, ri, after):
     """the path contains, after event index `after`, one pass through a `for _ in 0..ring_buffer.max_len()` loop whose body is
     push(signal.next()); returns (kind, why): kind in {'iteration', 'exit'}"""
+    # the refill spelled `ring_buffer.extend((0..max_len).map(|_| signal.next()))`: the Extend impl (one push per item, C06
+    # rb.extend) is inlined, the loop is driven by the mapped range: max_len items, each one pull of this signal
+    for l in [l for l in iterator_loops(p) if l['enter'] > after]:
+        it = l['iter']
+        src = p['events'][it[1]] if it[0] == 'ret' else None
+        if src is not None and rb_path(src).endswith('IntoIterator>::into_iter') or (src is not None and src['name'] == 'into_iter'):
+            it = src['args'][0]
+            src = p['events'][it[1]] if it[0] == 'ret' else None
+        if src is None or not is_call(src, ITER, 'map'):
+            continue
+        rng, clo = src['args']
+        hi = rng[2][1] if rng[0] == 'agg' and rng[1][1] == 'core::ops::range::Range' and rng[2][0] == ('int', 0, 'usize') else None
+        if hi is None or hi[0] != 'ret' or not rb(p['events'][hi[1]], 'max_len') or p['events'][hi[1]]['args'][0] != ('ref', self_loc(ri)):
+            return None, 'refill must produce exactly ring_buffer.max_len() items'
+        cps = returning(CX.closure_paths(clo, p, [('i',)], stop_trait_methods=STOP, opaque_prefixes=RB)) if clo[0] == 'agg' else []
+        okc = False
+        if len(cps) == 1:
+            ce = call_events(cps[0])
+            a0 = subst_invariants(ce[0][1]['args'][0], INV) if ce else None
+            okc = len(ce) == 1 and is_call(ce[0][1], SIGNAL, 'next') and cps[0]['ret'] == ('ret', ce[0][0]) and unre_ref(a0) == ('ref', self_loc(si))
+        if not okc:
+            return None, 'each refilled item must be one signal.next()'
+        d = dict(cond_facts(p)).get(('discr', ('ret', l['next'])))
+        body_evs = [(k, e) for k, e in call_events(p) if k > l['next']]
+        pulls_outside = [(k, e) for k, e in call_events(p) if is_call(e, SIGNAL, 'next')]
+        if pulls_outside:
+            return None, 'pulls outside the mapped refill iterator'
+        if d == ('int', 1, 'isize'):
+            ok = len(body_evs) == 1 and rb(body_evs[0][1], 'push') and body_evs[0][1]['args'] == [('ref', self_loc(ri)), ('field', ('variant', ('ret', l['next']), 1), 0)]
+            return ('iteration', None) if ok else (None, 'one refill iteration must be exactly ring_buffer.push(item)')
+        if d == ('int', 0, 'isize'):
+            return ('exit', None) if not body_evs else (None, 'effects after the refill has finished')
+        return None, 'refill loop not driven by its iterator'
     loops = [l for l in range_loops(p) if l['enter'] > after]
     counters = [l for l in counter_loops(p) if l['enter'] > after] if not loops else []
     downs = [l for l in countdown_loops(p) if l['enter'] > after] if not (loops or counters) else []
@@ -50,8 +98,11 @@ def refill_ok(p, si, ri, after):
     if outside:
         return None, 'pulls or pushes outside the refill loop'
     if d == ('int', 1, 'isize'):
+        # (a pull through `&mut take.signal` where take.signal is the loop-invariant `&mut self.signal` is a pull of this signal:
+        #  `impl Signal for &mut S` forwards, C04)
         src_ok = len(nx) == 1 and (nx[0][1]['args'][0] == ('ref', self_loc(si)) or (
-            nx[0][1]['args'][0][0] == 'ref' and nx[0][1]['args'][0][1][0][0] == 'L' and (nx[0][1].get('pre') or {}).get(0) == ('ref', self_loc(si))))
+            nx[0][1]['args'][0][0] == 'ref' and nx[0][1]['args'][0][1][0][0] == 'L'
+            and subst_invariants((nx[0][1].get('pre') or {}).get(0), INV) == ('ref', self_loc(si))))
         ok = (len(nx) == 1 and len(pu) == 1 and nx[0][0] < pu[0][0] and src_ok
               and pu[0][1]['args'] == [('ref', self_loc(ri)), ('ret', nx[0][0])] and len(body_evs) == 2)
         return ('iteration', None) if ok else (None, 'one refill iteration must be exactly ring_buffer.push(signal.next())')
@@ -73,6 +124,8 @@ def run(run, tier, loadcfg):
         if fx_ is None:
             continue
         cx = Ctx(fx_)
+        global CX
+        CX = cx
         from rules import C06
         C06.check_used(run, cx, cfg, [b for b in fx_.bodies.values() if b['crate'] == 'dasp_signal' and 'Buffered' in b['path']], 4)
         si, ri = cx.field_index(KEY, 'signal'), cx.field_index(KEY, 'ring_buffer')
@@ -112,6 +165,8 @@ def run(run, tier, loadcfg):
             run.fail('buffered.next', fn, cfg, 'function not found')
         else:
             ps = normal_paths(cx.paths(fn, stop_trait_methods=STOP, opaque_prefixes=RB))
+            global INV
+            INV = loop_invariants(ps)
             bad = None
             kinds = set()
             for p in ps:
@@ -149,6 +204,7 @@ def run(run, tier, loadcfg):
             run.fail('buffered.next_frames', fn, cfg, 'function not found')
         else:
             ps = normal_paths(cx.paths(fn, stop_trait_methods=STOP, opaque_prefixes=RB))
+            INV = loop_invariants(ps)
             bad = None
             kinds = set()
             for p in ps:
